@@ -1,6 +1,7 @@
 import Driver.Util
 import SymbolVerif.Model.Lint.Regex
 import SymbolVerif.Model.Lint.LineRules
+import SymbolVerif.Model.Lint.Validators
 import SymbolVerif.Model.Lint.Deps
 import SymbolVerif.Model.Hash.Sha1
 import SymbolVerif.Generated.LintTables
@@ -32,6 +33,7 @@ def ruleOut : Rule → String
   | .emptyAfterPragmaOnce => "emptyAfterPragmaOnce" | .copyright => "copyright"
   | .regionInvalid => "regionInvalid" | .regionNested => "regionNested" | .regionOrphanEnd => "regionOrphanEnd"
   | .regionUnclosed => "regionUnclosed" | .typo i => s!"typo{i}"
+  | .singleLine => "singleLine" | .multiCondition i => s!"mcc{i}"
 
 def reportsOut (rs : List Report) : String :=
   if rs.isEmpty then "-" else ",".intercalate (rs.map fun r => s!"{ruleOut r.rule}:{r.lineno}")
@@ -62,12 +64,31 @@ def handle : Handler
     let r ← allRegexes[i]?
     pure (toString (fullMatch r w))
   | "count", [] => pure (toString allRegexes.size)
-  -- lint <isHeader> <content>: the modelled reports of a file
-  | "lint", [hdr, content] => do
-    let h ← (if hdr = "1" then some true else if hdr = "0" then some false else none)
+  -- lint <path> <content>: the modelled reports of a file
+  | "lint", [path, content] => do
+    let p ← charsArg path
     let c ← charsArg content
-    let cfg : Config := ⟨h, SymbolVerif.Generated.Lint.lineLengthLimit, copyrightOk, typoRegexes⟩
-    pure (reportsOut (lint cfg (splitLines c)))
+    let cfg : Config := ⟨endsWithS p ".h", SymbolVerif.Generated.Lint.lineLengthLimit, copyrightOk, typoRegexes⟩
+    pure (reportsOut (lintAll cfg SymbolVerif.Generated.Lint.mccPatterns p (splitLines c)))
+  -- strip <line>: strip_comments_and_strings
+  | "strip", [line] => do
+    let l ← charsArg line
+    pure (strOut (String.ofList (Strip.strip l)))
+  -- captures <pattern> <search|match> <line>: the groups of the four patterns MultiConditionChecker reads groups of
+  | "captures", [name, mode, line] => do
+    let l ← charsArg line
+    let P := SymbolVerif.Generated.Lint.mccPatterns
+    let r ← (match name with
+      | "validation_result" => some P.validation_result
+      | "missing_explicit_ctor" => some P.missing_explicit_ctor
+      | "coerce" => some P.coerce
+      | "struct_assignment" => some P.struct_assignment
+      | _ => none)
+    let found := if mode = "match" then Capture.matchStart r l else Capture.search r l
+    pure (match found with
+      | none => "none"
+      | some caps => "ok " ++ ";".intercalate ((List.range 6).filterMap fun i =>
+          (Capture.group caps i).map fun g => s!"{i}={strOut (String.ofList g)}"))
   -- allowedrow <source directory> <dest,dest,...>: one character per destination (`DepsChecker.match`)
   | "allowedrow", [src, dests] => do
     let s ← charsArg src
